@@ -182,6 +182,12 @@ def build(spec, log=None, lookup=None, hook=None):
             if lift is not None:
                 lg.lifted[len(lg.events)] = X(x)
             lg.add("obj", 0, x, float(np.squeeze(v)))
+            if o.get("mutate"):
+                # an objective that works in place on the array it is given
+                try:
+                    x[...] = 7.0 * np.asarray(x, float) + 1.0
+                except (ValueError, TypeError):
+                    pass
             return wrap_ret(v, o.get("ret", "float"))
 
         b.fun = fun
@@ -222,6 +228,11 @@ def build(spec, log=None, lookup=None, hook=None):
             if lift is not None:
                 lg.lifted[len(lg.events)] = X(x)
             lg.add("nl", i, x, np.array(vals, float, copy=True))
+            if N.get("mutate"):
+                try:
+                    x[...] = -3.0 * np.asarray(x, float) - 2.0
+                except (ValueError, TypeError):
+                    pass
             if N.get("scalar") and len(comps) == 1:
                 return float(vals[0])
             if N.get("ret") == "list":
@@ -540,6 +551,8 @@ def problems(draw, profile=None):
         obj["ret"] = draw(wsample([("float", 5), ("np", 2), ("arr0", 1), ("arr1", 1)]))
         if pct(10):
             obj["args"] = [draw(dy(-1, 1))]
+        if pct(P.get("mutate_prob", 0)):
+            obj["mutate"] = True
 
     def limits(v, allow_eq=True):
         """limits for a value v at the reference point: pattern and slack."""
@@ -620,6 +633,8 @@ def problems(draw, profile=None):
             N["scalar"] = pct(50)
         elif pct(30):
             N["ret"] = "list"
+        if pct(P.get("mutate_prob", 0)):
+            N["mutate"] = True
         nl.append(N)
 
     # options
